@@ -681,15 +681,23 @@ class VarsManager(object):
         """
         # self.std_polar_all()
         dic = {}
+
+        def stored(i):
+            # the value of the variable itself: a temporary mask
+            # (mask_params) is not a value to save or to write back
+            if i in self.mask_vars and i not in self.pre_trans:
+                return self.variables[i].numpy()
+            return self.read(i).numpy()
+
         if trainable_only:
             for i in self.trainable_vars:
-                val = self.read(i).numpy()
+                val = stored(i)
                 # if i in self.bnd_dic:
                 #     val = self.bnd_dic[i].get_y2x(val)
                 dic[i] = val
         else:
             for i in self.variables:
-                val = self.read(i).numpy()
+                val = stored(i)
                 # if i in self.bnd_dic:
                 #    val = self.bnd_dic[i].get_y2x(val)
                 dic[i] = val
